@@ -672,3 +672,62 @@ def c18_loader_windows(tier, rng):
                 "obligation": "C18.loader_windows", "inputs": {"seed": base + k}, "observed": p[:2],
                 "required": "each region read back has the reference window of its own span", "replay_call": "contracts.c_strand:replay_loader_windows"}]}
     return {"cases": n, "bound": "%d random intermediate files" % n, "violations": [], "samples": [{"seed": base}]}
+
+
+# ---- the extended annotation: every reference transcript lies inside the reference window its Canonical attribute is read from -------------------------
+@finite("C18.extended_storage_window", ["C18"], note="the real create_extended_storage over in-memory gffutils annotations in which the gene listed last does not "
+        "end last (a short gene nested in a long one) and the gene listed first does not start first, on random sequences: for every reference "
+        "transcript of the sequence the Canonical value computed through the returned gene info (check_sites_are_canonical) equals the recount from the sequence")
+def c18_extended_storage_window(tier, rng):
+    import random
+    import gffutils
+    tp = native.repo_import("src/transcript_printer.py")
+    io_ = native.repo_import("src/assignment_io.py")
+    com = native.repo_import("src/common.py")
+    obl = dis = 0
+    viol = []
+    layouts = {
+        "nested_last": [("A", "+", [(301, 500), (901, 1100), (3001, 3300)]), ("B", "-", [(1501, 1600), (1901, 2000)])],
+        "first_starts_later": [("B", "-", [(1501, 1600), (1901, 2000)]), ("A", "+", [(301, 500), (901, 1100), (3001, 3300)])],
+        "single": [("A", "+", [(301, 500), (901, 1100), (3001, 3300)])],
+    }
+    for lname, genes in layouts.items():
+        gtf = []
+        for g, strand, ex in genes:
+            gtf.append('chrA\tsyn\tgene\t%d\t%d\t.\t%s\t.\tgene_id "%s";' % (ex[0][0], ex[-1][1], strand, g))
+            gtf.append('chrA\tsyn\ttranscript\t%d\t%d\t.\t%s\t.\tgene_id "%s"; transcript_id "%s.t";' % (ex[0][0], ex[-1][1], strand, g, g))
+            for a, b in ex:
+                gtf.append('chrA\tsyn\texon\t%d\t%d\t.\t%s\t.\tgene_id "%s"; transcript_id "%s.t";' % (a, b, strand, g, g))
+        db = gffutils.create_db("\n".join(gtf) + "\n", ":memory:", from_string=True, merge_strategy="error", disable_infer_genes=True,
+                                disable_infer_transcripts=True, keep_order=True)
+        for sd in range(3):
+            r = random.Random(sd)
+            seq = [r.choice("ACGT") for _ in range(4000)]
+            for g, strand, ex in genes:
+                for i in range(len(ex) - 1):
+                    l, rr = ex[i][1] + 1, ex[i + 1][0] - 1
+                    # sequence 0: every intron canonical on its strand; 1: all but the first of each transcript; 2: none
+                    site = (("GT", "AG") if strand == "+" else ("CT", "AC")) if (sd == 0 or (sd == 1 and i > 0)) else ("AA", "TT")
+                    seq[l - 1:l + 1] = site[0]
+                    seq[rr - 2:rr] = site[1]
+            seq = "".join(seq)
+            models, gene_info = tp.create_extended_storage(db, "chrA", seq, [])
+            ios = io_.IOSupport(type("P", (), {"check_canonical": True})())
+            for m in models:
+                obl += 1
+                introns = [(m.exon_blocks[i][1] + 1, m.exon_blocks[i + 1][0] - 1) for i in range(len(m.exon_blocks) - 1)]
+                table = com.CANONICAL_FWD_SITES if m.strand == "+" else com.CANONICAL_REV_SITES
+                want = all((seq[a - 1:a + 1], seq[b - 2:b]) in table for a, b in introns)
+                try:
+                    got = ios.check_sites_are_canonical(introns, gene_info, m.strand)
+                except Exception as e:
+                    got = "%s: %s" % (type(e).__name__, e)
+                if got == want:
+                    dis += 1
+                elif len(viol) < 3:
+                    viol.append({"obligation": "C18.extended_storage_window.%s.%s.%d" % (lname, m.transcript_id, sd),
+                                 "inputs": {"layout": lname, "transcript": m.transcript_id, "sequence_seed": sd},
+                                 "observed": "%s (reference window %s-%s)" % (got, getattr(gene_info, "all_read_region_start", None), getattr(gene_info, "all_read_region_end", None)),
+                                 "required": want})
+    return {"obligations": obl, "discharged": dis, "violations": viol, "cases": obl, "exhaustive": True,
+            "bound": "3 gene layouts x 3 sequences x reference transcripts", "samples": [{"layout": "nested_last"}]}
